@@ -1713,6 +1713,128 @@ fn three_store_result(n: usize, order: u8) -> CaseResult {
     }
 }
 
+/// A chain of `levels` + 2 stores in one pack: D sorted on its key (reversed by the sort),
+/// F_levels sorted on (position of its entry of D, name), F_i sorted on (position of its entry
+/// of F_{i+1}, name), X unsorted referencing F_1. `order`: how the stores are added.
+fn chain_store_result(n: usize, levels: usize, order: u8) -> CaseResult {
+    use jbk::creator::schema;
+    let cj = json!({"engine":"schemamc","sub":"c15","store_chain":{"n":n,"levels":levels,"order":order}});
+    let done = |outcome: &str, v: Option<(String, String)>| CaseResult {
+        id: format!("chain:{cj}"),
+        nontrivial: true,
+        outcome: outcome.into(),
+        violation: v.map(|(k, w)| (k, w, cj.clone())),
+        sample: json!({"tier": "store-chain", "case": cj}),
+    };
+    let built = jbkmc::catch(|| -> Result<Vec<u8>, String> {
+        let mut creator = jbk::creator::DirectoryPackCreator::new(jbk::PackId::from(0), jbk::VendorId::from([1, 2, 3, 4]), Default::default());
+        let schema_d = schema::Schema::<&'static str, &'static str>::new(schema::CommonProperties::new(vec![schema::Property::new_uint("key"), schema::Property::new_uint("id")]), vec![], Some(vec!["key"]));
+        let mut d = Box::new(jbk::creator::EntryStore::new(schema_d, None));
+        let mut handles = vec![];
+        for i in 0..n {
+            let e = jbk::creator::BasicEntry::new_from_schema(&d.schema, None, std::collections::HashMap::from([("key", jbk::Value::Unsigned((n - i) as u64)), ("id", jbk::Value::Unsigned(i as u64))]));
+            handles.push(d.add_entry(e));
+        }
+        // F_levels .. F_1
+        let mut fs = vec![];
+        for _ in 0..levels {
+            let schema_f = schema::Schema::<&'static str, &'static str>::new(schema::CommonProperties::new(vec![schema::Property::new_uint("up"), schema::Property::new_uint("name"), schema::Property::new_uint("id")]), vec![], Some(vec!["up", "name"]));
+            let mut f = Box::new(jbk::creator::EntryStore::new(schema_f, None));
+            let mut hs = vec![];
+            for j in 0..n {
+                let e = jbk::creator::BasicEntry::new_from_schema(
+                    &f.schema,
+                    None,
+                    std::collections::HashMap::from([("up", jbk::Value::UnsignedWord(handles[j].clone().into())), ("name", jbk::Value::Unsigned(j as u64)), ("id", jbk::Value::Unsigned(j as u64))]),
+                );
+                hs.push(f.add_entry(e));
+            }
+            handles = hs;
+            fs.push(f);
+        }
+        let schema_x = schema::Schema::<&'static str, &'static str>::new(schema::CommonProperties::new(vec![schema::Property::new_uint("id"), schema::Property::new_uint("file")]), vec![], None);
+        let mut x = Box::new(jbk::creator::EntryStore::new(schema_x, None));
+        let nx = n.min(20);
+        for k in 0..nx {
+            let e = jbk::creator::BasicEntry::new_from_schema(&x.schema, None, std::collections::HashMap::from([("id", jbk::Value::Unsigned(k as u64)), ("file", jbk::Value::UnsignedWord(handles[k].clone().into()))]));
+            x.add_entry(e);
+        }
+        // adding order: fs = [F_levels, .., F_1]
+        type St = Box<jbk::creator::EntryStore<&'static str, &'static str, jbk::creator::BasicEntry<&'static str, &'static str>>>;
+        let mut named: Vec<(String, u32, St)> = vec![("d".into(), n as u32, d)];
+        for (i, f) in fs.into_iter().enumerate() {
+            named.push((format!("f{}", levels - i), n as u32, f));
+        }
+        named.push(("x".into(), nx as u32, x));
+        // named = [d, F_levels, .., F_1, x]
+        match order {
+            0 => named.reverse(), // x, F_1, .., F_levels, d
+            1 => {}               // d, F_levels, .., F_1, x
+            _ => {
+                let last = named.pop().unwrap(); // x
+                named.rotate_left(1); // F_levels, .., F_1, d
+                named.insert(1.min(named.len()), last);
+            }
+        }
+        for (name, count, store) in named {
+            let id = creator.add_entry_store(store);
+            creator.create_index(&name, Default::default(), 0.into(), id, jbk::EntryCount::from(count), jbk::EntryIdx::from(0).into());
+        }
+        let mut out = std::io::Cursor::new(Vec::new());
+        creator.finalize().map_err(|e| format!("finalize: {e}"))?.write(&mut out).map_err(|e| format!("write: {e}"))?;
+        Ok(out.into_inner())
+    });
+    let bytes = match built {
+        Ok(Ok(b)) => b,
+        Ok(Err(e)) => return done("violation", Some(("C15 creation failed (chain of stores)".into(), e))),
+        Err(p) => return done("violation", Some((format!("C15 creation failed (chain of stores) {}", jbkmc::panic_site(&p)), p))),
+    };
+    let read = jbkmc::catch(|| -> Result<(), (String, String)> {
+        let od = open(bytes).map_err(|e| ("C15 chain of stores: directory pack does not open".to_string(), e))?;
+        let get = |name: &str, count: usize, props: &[&str]| -> Result<Vec<Vec<u64>>, (String, String)> {
+            let ix = od.index(name).map_err(|e| (format!("C15 chain of stores: index {name}"), e))?.ok_or((format!("C15 chain of stores: index {name} missing"), String::new()))?;
+            let mut rows = vec![];
+            for p in 0..count as u32 {
+                let e = ix.entry(p).map_err(|e| (format!("C15 chain of stores: unreadable entry of {name}"), e))?.ok_or((format!("C15 chain of stores: entry of {name} missing"), format!("{p}")))?;
+                rows.push(props.iter().map(|pr| match e.vals.get(*pr) { Some(jbkmc::dirmodel::RVal::U(v)) => *v, _ => u64::MAX }).collect());
+            }
+            Ok(rows)
+        };
+        let drows = get("d", n, &["key", "id"])?;
+        if drows.windows(2).any(|w| w[0][0] > w[1][0]) {
+            return Err(("C15 chain of stores: store D is not sorted on its key".into(), format!("{:?}", &drows[..drows.len().min(6)])));
+        }
+        // position of the entry with insertion number i, per store, walking down the chain
+        let mut pos_up: std::collections::HashMap<u64, usize> = drows.iter().enumerate().map(|(p, r)| (r[1], p)).collect();
+        for lvl in (1..=levels).rev() {
+            let name = format!("f{lvl}");
+            let rows = get(&name, n, &["up", "name", "id"])?;
+            for r in &rows {
+                let want = pos_up[&r[2]] as u64;
+                if r[0] != want {
+                    return Err(("C15 reference into another store does not resolve to the final position".into(), format!("entry #{} of {name} references entry #{} of the next store (final position {want}), stored {}", r[2], r[2], r[0])));
+                }
+            }
+            if rows.windows(2).any(|w| (w[0][0], w[0][1]) > (w[1][0], w[1][1])) {
+                return Err((format!("C15 chain of stores: store {name} is not sorted on (reference, name)"), format!("{:?}", &rows[..rows.len().min(6)])));
+            }
+            pos_up = rows.iter().enumerate().map(|(p, r)| (r[2], p)).collect();
+        }
+        for r in &get("x", n.min(20), &["id", "file"])? {
+            let want = pos_up[&r[0]] as u64;
+            if r[1] != want {
+                return Err(("C15 reference into another store does not resolve to the final position".into(), format!("entry #{} of X references entry #{} of F1 (final position {want}), stored {}", r[0], r[0], r[1])));
+            }
+        }
+        Ok(())
+    });
+    match read {
+        Ok(Ok(())) => done("ok(chain of stores)", None),
+        Ok(Err((k, w))) => done("violation", Some((k, w))),
+        Err(p) => done("violation", Some((format!("C15 chain of stores: reader panics {}", jbkmc::panic_site(&p)), p))),
+    }
+}
+
 fn cross_cases(thorough: bool) -> Vec<CrossCase> {
     let mut v = vec![];
     // small: every target function for n <= 3, 2 entries in A
@@ -1755,7 +1877,7 @@ fn c15(args: &Args) -> ! {
     let mut rep = Report::new(
         "schemamc",
         "C15",
-        "every reference function f: entries -> entries+none ((n+1)^n graphs) x every insertion order (n!) x {sorted,unsorted} x {reference column alone, next to another column} x {unsigned word, unsigned word beside plain equal constants, signed word = target position, signed word = target - own position}, n in 1..4 (quick) / 1..5 (thorough), plus references between two and three stores of one pack (every target function on small stores, stores of 257/300 entries reversed by their sort, every order of adding the stores); plus structured graphs (successor chain, everyone->last, reversal, self) at n in {32,300,1000,20000} crossing the 1-byte position boundary and rayon's sequential cut-offs; non-trivial = at least one reference and (unsorted or the sort moves an entry)",
+        "every reference function f: entries -> entries+none ((n+1)^n graphs) x every insertion order (n!) x {sorted,unsorted} x {reference column alone, next to another column} x {unsigned word, unsigned word beside plain equal constants, signed word = target position, signed word = target - own position}, n in 1..4 (quick) / 1..5 (thorough), plus references between two, three, four and five stores of one pack (chains of stores each sorted on its references into the next) (every target function on small stores, stores of 257/300 entries reversed by their sort, every order of adding the stores); plus structured graphs (successor chain, everyone->last, reversal, self) at n in {32,300,1000,20000} crossing the 1-byte position boundary and rayon's sequential cut-offs; non-trivial = at least one reference and (unsorted or the sort moves an entry)",
     );
     if let Some(p) = &args.replay {
         let j: J = serde_json::from_str(&std::fs::read_to_string(p).expect("replay file")).unwrap();
@@ -1906,6 +2028,9 @@ fn c15(args: &Args) -> ! {
     // a chain of three stores: X -> F (sorted on its reference into D) -> D (sorted)
     let three: Vec<(usize, u8)> = [2usize, 3, 10, 257, 300].iter().flat_map(|&n| (0..3u8).map(move |o| (n, o))).collect();
     run_cases(&mut rep, &three, |(n, o)| three_store_result(*n, *o));
+    // longer chains: X -> F1 -> F2 (-> F3) -> D, every store sorted on its reference into the next
+    let chains: Vec<(usize, usize, u8)> = [3usize, 257, 300].iter().flat_map(|&n| [2usize, 3].into_iter().flat_map(move |l| (0..3u8).map(move |o| (n, l, o)))).collect();
+    run_cases(&mut rep, &chains, |(n, l, o)| chain_store_result(*n, *l, *o));
     rep.finish(args)
 }
 
@@ -1996,6 +2121,7 @@ fn refsort_result(case: &RefCase) -> CaseResult {
 fn main() {
     jbkmc::install_quiet_panic_hook();
     let args = Args::parse();
+    jbkmc::dirmodel::ANCHOR_INDEX.store(true, std::sync::atomic::Ordering::Relaxed);
     match args.sub.as_str() {
         "c02" => c02(&args),
         "c03" => c03(&args),
